@@ -2,7 +2,7 @@ import PhyModel.Proofs.StoreCache_Step
 /-! C06, decidable forms of the hypotheses (for the non-vacuity examples): `cacheOKB` decides
 `CacheOK`, `wfcB` decides the part `WFc` of well-formedness, `alongB` checks a state predicate along
 a concrete run, `dataNZB` decides `DataNZ`. -/
-namespace PhyModel.Store
+namespace PhyModel.Store.C06
 open PhyModel
 
 theorem cacheOKsf_iff_bool (dt : Data) : ∀ f : SF, Store.cacheOKsf dt f = true ↔ CacheOKsf dt f
@@ -65,4 +65,4 @@ theorem dataNZB_sound (dt : Data) (h : dataNZB dt = true) : DataNZ dt := by
   simp only [List.all_eq_true, List.mem_range, bne_iff_ne] at h
   exact h i hi s hs k hk
 
-end PhyModel.Store
+end PhyModel.Store.C06
